@@ -367,7 +367,7 @@ var builtinOps = map[string]bool{
 	"str.in_re": true, "str.to_code": true, "str.from_code": true, "str.<": true, "str.<=": true, "str.replace_all": true,
 	"+": true, "-": true, "*": true, "<": true, "<=": true, ">": true, ">=": true, "div": true, "mod": true,
 	"bv2nat": true, "int2bv": true, "sbv2int": true,
-	"re.*": true, "re.+": true, "re.++": true, "re.range": true, "str.to_re": true, "re.union": true, "re.opt": true, "re.allchar": true, "re.all": true, "re.comp": true,
+	"re.*": true, "re.+": true, "re.++": true, "re.range": true, "str.to_re": true, "re.union": true, "re.opt": true, "re.allchar": true, "re.all": true, "re.comp": true, "re.diff": true, "re.none": true,
 }
 
 // Ref returns SMT text denoting t, emitting any definitions it needs first.
